@@ -280,7 +280,7 @@ def libm(s, st, name, a):
         if name in ('rint', 'nearbyint'): return ('f', z3.fpRoundToIntegral(RNE, X[0]))
         if name == 'fmin': return ('f', z3.fpMin(X[0], X[1]))
         if name == 'fmax': return ('f', z3.fpMax(X[0], X[1]))
-        if name == 'sqrt' and s.mode == 'fp': return ('f', z3.fpSqrt(RNE, X[0]))
+        if name == 'sqrt' and s.mode == 'fp' and False: return ('f', z3.fpSqrt(RNE, X[0]))
         r = s.uf('libm_' + name, len(a))(*X)
         st.apps.append((name, tuple(X), r))
         return ('f', r)
